@@ -56,6 +56,11 @@ def sources(tier, wd, out, per_focus_quick=250, per_focus_thorough=1200, foci=FO
                      '<g opacity="0.5"><rect width="4" height="4"/>%s</g><rect x="6" width="3" height="3"/>'):
             res.append(("family/unsupported-in-group", '<svg xmlns="http://www.w3.org/2000/svg" viewBox="0 0 16 16">'
                         '<g opacity="0.5">%s</g><rect x="9" y="9" width="5" height="5"/></svg>' % (body % u), None))
+    # many digits requested: vertices a hair (around 1e-9) away from their subpath's start
+    for d in ("M0,0 L8,0 L8,8 L0.0000000014,0 Z", "M2,2 L9,2 L9,9 L2.0000000009,2.0000000012 L2,2 Z",
+              "M1,1 l5,0 l0,5 L1.0000000016,1 z M3,3 L4,3 L4,4 Z", "M0,0 L8,0 L8,8 L0.00000000051,0.0000000014 Z"):
+        res.append(("family/high-precision", '<svg xmlns="http://www.w3.org/2000/svg" viewBox="0 0 16 16">'
+                    '<path d="%s"/><rect x="9" y="9" width="5" height="5" fill="red"/></svg>' % d, None))
     # gradientTransform translations around the 6-digit rounding threshold (what is folded into the
     # coordinates and what stays in the matrix must not change from one pass to the next)
     for tx in ("0.0000016", "0.0000004", "0.00000051", "1.4e-6", "0.0000049", "0.000001"):
@@ -199,7 +204,9 @@ def run_structural(out, prop, tier, okverdicts, rule, classify, foci=FOCI, nq=25
         recs, meta = [], []
         jobs = []
         for i, (name, svg, adoc) in enumerate(srcs):
-            if name.startswith("family/"):
+            if name == "family/high-precision":
+                opts = [(9, 0, 0), (10, 0, 1), (12, 0, 0), (8, 0, 0)]
+            elif name.startswith("family/"):
                 opts = OPTS_QUICK
             elif tier == "quick":
                 k = int(hsh(svg), 16)
